@@ -1059,8 +1059,11 @@ class DestHandler:
             self.transmission_mode == TransmissionMode.UNACKNOWLEDGED
             and not self._checksum_verify()
         ):
+            # The File Checksum Failure fault was already declared by the checksum verification.
             if (
-                self._declare_fault(ConditionCode.FILE_CHECKSUM_FAILURE)
+                self.cfg.default_fault_handlers.get_fault_handler(
+                    ConditionCode.FILE_CHECKSUM_FAILURE
+                )
                 != FaultHandlerCode.IGNORE_ERROR
             ):
                 return False
